@@ -3,6 +3,7 @@ import re
 from common import *
 import mirlib
 from mirlib import TypeState
+import C01
 
 META = {
     'explanation': 'A forward typestate analysis over Streaming::poll_next tracks the decoder state field (Live / Error(Some) / '
@@ -263,6 +264,11 @@ def run(R):
                     R.check(ok, 'C07.R2', key, site(b, bb), why)
         R.floor('C07.R2', 'bodies in reach', len(rs), 25)
         R.floor('C07.R2', 'panic sites examined', n_sites, 12)
+
+    # ---------------------------------------------------------------- R4 yielded messages respect frame boundaries
+    R.describe('C07.R4', 'a compressed message is inflated from exactly buf[0..len] of its frame and the frame is consumed by advance(len) once (every decompress arm); so a yielded message never crosses a frame boundary')
+    with R.guard('C07.R4'):
+        C01.run_codec_tables(R, tonic, tag='@C07', rule='C07.R4')
 
     # ---------------------------------------------------------------- R3 errors are values
     R.describe('C07.R3', 'decompress failure -> Err(Status::internal); prost decode failure -> map_err(from_decode_error) -> Status::internal; no unwrap')
